@@ -41,23 +41,45 @@ Definition nl_equals (n w : nl) : bool :=
 Definition nl_equals_pinned (n w : nl) : bool :=
   Nat.eqb (length n) (length w) && forallb (fun wv => forallb (fun nv => lrv_eqb nv wv) n) w.
 
-(* histories *)
+(* histories.  OCount / OFirst: the observers Count() and First() issued at that point of the history; they leave
+   the state as it is and their answers are part of the trace *)
 Inductive nop :=
-| OSet (t v : bytes) | OAppend (t v : bytes) | OAdd (t v : bytes) | OGet (t : bytes).
+| OSet (t v : bytes) | OAppend (t v : bytes) | OAdd (t v : bytes) | OGet (t : bytes) | OCount | OFirst.
 
 Definition nl_step (l : nl) (o : nop) : nl :=
   match o with
   | OSet t v => nl_set l t v
   | OAppend t v | OAdd t v => nl_append l t v
-  | OGet _ => l
+  | OGet _ | OCount | OFirst => l
   end.
 
-(* the observable trace of a history: the answer of every Get, in order *)
-Fixpoint nl_run (l : nl) (ops : list nop) : nl * list (option bytes) :=
+(* what a call answers: the text (or nil) of a Get, the number of a Count, the entry of a First *)
+Inductive nobs := AGet (a : option bytes) | ACount (n : nat) | AFirst (e : lrv).
+
+Definition nobs_eqb (a b : nobs) : bool :=
+  match a, b with
+  | AGet (Some x), AGet (Some y) => bytes_eqb x y
+  | AGet None, AGet None => true
+  | ACount x, ACount y => Nat.eqb x y
+  | AFirst x, AFirst y => lrv_eqb x y
+  | _, _ => false
+  end.
+
+(* the answer of the operation [o] issued in state [l] (the mutators answer nothing that is recorded) *)
+Definition nl_obs (l : nl) (o : nop) : list nobs :=
+  match o with
+  | OGet t => [AGet (nl_get l t)]
+  | OCount => [ACount (nl_count l)]
+  | OFirst => [AFirst (nl_first l)]
+  | _ => []
+  end.
+
+(* the observable trace of a history: the answer of every Get, Count and First, in order *)
+Fixpoint nl_run (l : nl) (ops : list nop) : nl * list nobs :=
   match ops with
   | [] => (l, [])
   | o :: r =>
-      let out := match o with OGet t => [nl_get l t] | _ => [] end in
+      let out := nl_obs l o in
       let '(l', outs) := nl_run (nl_step l o) r in (l', out ++ outs)
   end.
 
